@@ -20,6 +20,8 @@ import (
 	"fmt"
 	"hash/fnv"
 	"os"
+	"runtime"
+	"runtime/debug"
 	"runtime/metrics"
 	"sort"
 	"strings"
@@ -448,6 +450,10 @@ func diffFields(a, b *PV) []string {
 			set[k] = true
 		}
 	}
+	return sortedKeys(set)
+}
+
+func sortedKeys(set map[string]bool) []string {
 	out := []string{}
 	for k := range set {
 		out = append(out, k)
@@ -465,7 +471,6 @@ type decRes struct {
 	hang     bool
 	alloc    uint64
 	consumed int
-	guardOK  bool
 }
 
 var watchdog = 20 * time.Second
@@ -512,8 +517,9 @@ func decodeOnce(stream []byte, v int, isConnect bool, measure bool) (res *decRes
 
 func allocLimit(n int) uint64 { return uint64(32*n + 65536) }
 
-// decode runs the real decoder; an allocation above the limit is re-measured (other goroutines of this process
-// read and parse lines concurrently and share the process-wide counter) and the minimum is kept.
+// decode runs the real decoder on input (+ guard bytes unless the stream ends after it).  The driver is a single
+// goroutine, so nothing else allocates while ReadPacket is measured; a small surplus is still re-measured and the
+// minimum kept (a surplus above 1 MiB cannot be noise and is not re-measured).
 func decode(input []byte, v int, eof bool) *decRes {
 	stream := input
 	if !eof {
@@ -521,7 +527,15 @@ func decode(input []byte, v int, eof bool) *decRes {
 	}
 	isConnect := len(input) > 0 && input[0]>>4 == packets.CONNECT
 	res := decodeOnce(stream, v, isConnect, true)
-	// (a surplus above 1 MiB cannot be noise of the line reader and is not re-measured)
+	if res.hang {
+		// a verdict "hang" must not come from a loaded machine: collect garbage, then once more with a longer watchdog
+		runtime.GC()
+		debug.FreeOSMemory()
+		old := watchdog
+		watchdog = 4 * old
+		res = decodeOnce(stream, v, isConnect, true)
+		watchdog = old
+	}
 	for i := 0; i < 3 && !res.hang && res.panicked == "" && res.alloc > allocLimit(len(input)) && res.alloc < allocLimit(len(input))+1<<20; i++ {
 		r2 := decodeOnce(stream, v, isConnect, true)
 		if r2.hang || r2.panicked != "" {
@@ -642,11 +656,11 @@ func member(x []byte, vec *Vec) bool {
 func common(res *decRes, vec *Vec, input []byte, rep *tc.Reporter) bool {
 	ty := typeOfBytes(vec.Bytes)
 	if res.hang {
-		div("hang:"+ty, fmt.Sprintf("ReadPacket did not return within %v on %x", watchdog, input), vec, nil)
+		div("hang:"+ty, fmt.Sprintf("ReadPacket did not return within %v (twice) on %x", watchdog, head(input)), vec, nil)
 		return false
 	}
 	if res.panicked != "" {
-		div("panic:"+ty, fmt.Sprintf("ReadPacket panicked on %x: %s", input, res.panicked), vec, nil)
+		div("panic:"+ty, fmt.Sprintf("ReadPacket panicked on %x: %s", head(input), res.panicked), vec, nil)
 		return false
 	}
 	if res.alloc > allocLimit(len(input)) {
@@ -674,7 +688,7 @@ func checkValid(vec *Vec, rep *tc.Reporter) {
 		return
 	}
 	if res.err != nil || res.pkt == nil {
-		divF(fmt.Sprintf("reject-valid:%s:", ty), features(vec), fmt.Sprintf("ReadPacket(v=%d) rejects the well-formed %s %x: %v; value %s",
+		divF(fmt.Sprintf("reject-valid:%s:", ty), features(vec, true), fmt.Sprintf("ReadPacket(v=%d) rejects the well-formed %s %x: %v; value %s",
 			p.V, ty, head(in), res.err, canon(p)), vec, map[string]interface{}{"error": fmt.Sprint(res.err)})
 	} else {
 		if res.consumed != len(in) {
@@ -687,7 +701,8 @@ func checkValid(vec *Vec, rep *tc.Reporter) {
 				ty, p.V, head(in), fs, canon(got), canon(p)), vec, map[string]interface{}{"got": got})
 		}
 		if tb := packets.TotalBytes(res.pkt); int(tb) != len(in) && vec.Origin == "rl_noncanon" {
-			div("totalbytes-decoded:noncanonical-remaining-length", fmt.Sprintf("packets.TotalBytes = %d after decoding the %d-byte %s %x (3.1.1 allows the padded Remaining Length)", tb, len(in), ty, head(in)), vec, nil)
+			div("totalbytes-decoded:noncanonical-remaining-length", fmt.Sprintf("packets.TotalBytes = %d after decoding the %d-byte %s %x (3.1.1 allows the padded Remaining Length)",
+				tb, len(in), ty, head(in)), vec, nil)
 		} else if int(tb) != len(in) {
 			div("totalbytes-decoded:"+ty, fmt.Sprintf("packets.TotalBytes = %d after decoding the %d-byte %s %x", tb, len(in), ty, head(in)), vec, nil)
 		}
@@ -702,7 +717,7 @@ func checkValid(vec *Vec, rep *tc.Reporter) {
 		} else {
 			if !member(re, vec) {
 				div(fmt.Sprintf("reencode:%s:%s", ty, vc), fmt.Sprintf("decoded %s (v=%d) %x re-encodes to %x, which is not an encoding of the value",
-					ty, p.V, head(in), head(re)), vec, map[string]interface{}{"reencoded": hex.EncodeToString(re)})
+					ty, p.V, head(in), head(re)), vec, map[string]interface{}{"reencoded": hex.EncodeToString(head(re))})
 			}
 			if tb := packets.TotalBytes(res.pkt); int(tb) != len(re) {
 				div("totalbytes-packed:"+ty, fmt.Sprintf("packets.TotalBytes = %d after Pack wrote %d bytes (%s)", tb, len(re), ty), vec, nil)
@@ -722,16 +737,17 @@ func checkValid(vec *Vec, rep *tc.Reporter) {
 		return
 	}
 	if !member(enc, vec) {
-		divF(fmt.Sprintf("encode:%s:%s:", ty, vc), features(vec), fmt.Sprintf("Pack of %s (v=%d) gives %x; the specification's encodings are %x (+%d alternatives)",
-			ty, p.V, head(enc), head(in), len(vec.Alts)), vec, map[string]interface{}{"encoded": hex.EncodeToString(enc)})
+		divF(fmt.Sprintf("encode:%s:%s:", ty, vc), features(vec, false), fmt.Sprintf("Pack of %s (v=%d) gives %x; the specification's encodings are %x (+%d alternatives)",
+			ty, p.V, head(enc), head(in), len(vec.Alts)), vec, map[string]interface{}{"encoded": hex.EncodeToString(head(enc))})
 	}
 	if tb := packets.TotalBytes(pk); int(tb) != len(enc) {
 		div("totalbytes-packed:"+ty, fmt.Sprintf("packets.TotalBytes = %d after Pack wrote %d bytes (%s)", tb, len(enc), ty), vec, nil)
 	}
 }
 
-// features names what distinguishes a packet value (for specific signatures): its properties, will properties, password
-func features(vec *Vec) []string {
+// features names what distinguishes a packet value (for specific signatures): its properties, will properties,
+// password; with content = true also content classes of its strings / binary data (labels only)
+func features(vec *Vec, content bool) []string {
 	p := vec.P
 	set := map[string]bool{}
 	for _, x := range p.Props {
@@ -743,15 +759,52 @@ func features(vec *Vec) []string {
 	if p.T == "CONNECT" && p.Pflag {
 		set["password"] = true
 	}
-	out := []string{}
-	for k := range set {
-		out = append(out, k)
+	if !content {
+		return sortedKeys(set)
 	}
-	sort.Strings(out)
-	return out
+	fffd := func(x []int) bool { return bytes.Contains(bs(x), []byte{0xEF, 0xBF, 0xBD}) }
+	nontext := func(x []int) bool {
+		b := bs(x)
+		if !utf8.Valid(b) {
+			return true
+		}
+		for _, c := range b {
+			if c < 0x20 || c == 0x7F {
+				return true
+			}
+		}
+		return false
+	}
+	strs := [][]int{p.Cid, p.Wtopic, p.User, p.Topic}
+	bins := [][]int{p.Wmsg, p.Pass}
+	for _, t := range p.Topics {
+		strs = append(strs, t.F)
+	}
+	strs = append(strs, p.Filters...)
+	for _, x := range append(append([]Prop{}, p.Props...), p.Wprops...) {
+		if x.ID == 9 || x.ID == 22 {
+			bins = append(bins, x.S)
+		} else if x.ID != 2 && x.ID != 17 && x.ID != 24 && x.ID != 39 {
+			strs = append(strs, x.S, x.S2)
+		}
+	}
+	for _, x := range strs {
+		if fffd(x) {
+			return []string{"U+FFFD"} // one code path (ValidUTF8) for every string field of every packet type
+		}
+	}
+	for _, x := range bins {
+		if nontext(x) {
+			set["nontext-binary"] = true
+		}
+	}
+	return sortedKeys(set)
 }
 
 func divF(prefix string, toks []string, what string, vec *Vec, extra map[string]interface{}) {
+	if len(toks) == 1 && toks[0] == "U+FFFD" {
+		prefix = prefix[:strings.Index(prefix, ":")+1]
+	}
 	sig := prefix + strings.Join(toks, "+")
 	div(sig, what, vec, extra)
 	mu.Lock()
@@ -895,6 +948,7 @@ func main() {
 	wd := flag.Duration("watchdog", 20*time.Second, "per-decode watchdog")
 	flag.Parse()
 	watchdog = *wd
+	debug.SetGCPercent(100) // (tc raises it; the oversize vectors make large garbage)
 	rep := tc.NewReporter()
 	var nvalid, nfault int64
 	handle := func(js []byte) {
@@ -933,16 +987,21 @@ func main() {
 			nvalid++
 			checkValid(&vec, rep)
 			if vec.P.T != "PINGREQ" && len(vec.P.Props) > 0 {
-				rep.Sample(sample(&vec), 2)
+				rep.Sample(sample(&vec), 6)
 			}
 		case "fault":
 			nfault++
 			checkFault(&vec, rep)
-			if vec.Fault != "trunc_stream" {
+			if vec.Fault != "trunc_stream" && vec.Fault != "trunc_body" && nfault%7 == 0 {
 				rep.Sample(sample(&vec), 4)
 			}
 		case "validity":
 			checkValidity(&vec, rep)
+			if len(vec.S) > 2 && (vec.Vf != vec.Vn || bytes.IndexByte(bs(vec.S), 0) >= 0) {
+				b, _ := json.Marshal(map[string]interface{}{"kind": "validity", "string": fmt.Sprintf("%q", bs(vec.S)), "valid_name": vec.Vn,
+					"valid_filter": vec.Vf, "valid_v5_subscription_filter": vec.Vs})
+				rep.Sample(b, 2)
+			}
 			if vec.Vn || vec.Vf || vec.Vs {
 				nvalid++
 			} else {
